@@ -7,6 +7,8 @@ import (
 	"errors"
 	"fmt"
 	"io"
+	"net/http"
+	"net/url"
 	"sort"
 	"sync"
 	"time"
@@ -83,22 +85,23 @@ func observeErr(e ev, err error) {
 
 // world is a stack under test together with what the harness needs to drive and observe it.
 type world struct {
-	mu      sync.Mutex
-	cat     *Catalog
-	top     ociregistry.Interface
-	snapOf  ociregistry.Interface // registry whose state the snap events project (nil: none)
-	snapAll []ociregistry.Interface
-	prefix  string // repository name prefix underneath a sub() view
-	close   func()
-	writers map[string]ociregistry.BlobWriter
-	ids     map[string]string
-	out     *json.Encoder
-	nEvents int
-	rec     *recorder // backend call log, if the stack has one
-	quiesce func()
-	opNo    int64
-	setOp   func(int64)
-	direct  bool // the current op bypasses the stack (pre-population)
+	mu        sync.Mutex
+	cat       *Catalog
+	top       ociregistry.Interface
+	snapOf    ociregistry.Interface // registry whose state the snap events project (nil: none)
+	snapAll   []ociregistry.Interface
+	prefix    string // repository name prefix underneath a sub() view
+	close     func()
+	writers   map[string]ociregistry.BlobWriter
+	ids       map[string]string
+	out       *json.Encoder
+	nEvents   int
+	rec       *recorder // backend call log, if the stack has one
+	quiesce   func()
+	opNo      int64
+	setOp     func(int64)
+	direct    bool   // the current op bypasses the stack (pre-population)
+	serverURL string // outermost HTTP server of the stack ("" if none or single POST disabled)
 	// noFreshIDs: resuming a session the stack has not issued an id for is skipped
 	noFreshIDs bool
 }
@@ -233,6 +236,40 @@ func (w *world) exec(ctx context.Context, op Op) (e ev) {
 		observeErr(e, err)
 		if err == nil {
 			w.descFields(e, got)
+		}
+	case "PostBlob":
+		// single-POST upload (POST .../blobs/uploads/?digest=...): the client library never uses this
+		// path, so it is driven with a plain HTTP request against the stack's outermost server
+		if w.serverURL == "" {
+			e["op"] = "skip"
+			break
+		}
+		c := cat.byID[op.C]
+		u := w.serverURL + "/v2/" + op.R + "/blobs/uploads/?digest=" + url.QueryEscape(string(w.digestOf(op.DD)))
+		req, _ := http.NewRequestWithContext(ctx, "POST", u, bytes.NewReader(c.Data))
+		req.Header.Set("Content-Type", "application/octet-stream")
+		req.Header.Set("X-Verif-Op", fmt.Sprint(w.opNo))
+		resp, err := http.DefaultClient.Do(req)
+		if err != nil {
+			observeErr(e, err)
+			break
+		}
+		body, _ := io.ReadAll(resp.Body)
+		resp.Body.Close()
+		if resp.StatusCode == http.StatusCreated {
+			observeErr(e, nil)
+			e["d"] = cat.cidOfDigest(digest.Digest(resp.Header.Get("Docker-Content-Digest")))
+			e["dsize"] = len(c.Data)
+			e["mt"] = "octet"
+			e["status"] = resp.StatusCode
+			break
+		}
+		var werrs ociregistry.WireErrors
+		if json.Unmarshal(body, &werrs) == nil && len(werrs.Errors) > 0 {
+			observeErr(e, ociregistry.NewHTTPError(&werrs, resp.StatusCode, nil, nil))
+		} else {
+			observeErr(e, fmt.Errorf("status %d with no OCI error body", resp.StatusCode))
+			e["status"] = resp.StatusCode
 		}
 	case "MountBlob":
 		got, err := reg.MountBlob(ctx, op.From, op.R, w.digestOf(op.C))
